@@ -260,7 +260,7 @@ impl Property for C16 {
          oracle = exact rational pointwise values, and for functions that are affine after merging the exact range over the box (attained at corners; infinite on unbounded sides); non-trivial = an operand with an infinite end or a sign-crossing interval, or exponent>=4; distinct = sha256(case)"
     }
     fn required_labels(&self) -> Vec<String> {
-        ["0*inf", "odd-power-crossing", "even-power-negative", "unnormalised-function", "missing-bound", "mode=ops", "mode=evaluate-bound", "mode=integer-bound", "mode=content-factor", "exponent>=4", "content-zero-function", "infinite-box-side", "sub-epsilon-coefficients", "affine-range-oracle", "affine-range-unbounded", "integer-bound-huge-endpoint"].iter().map(|s| s.to_string()).collect()
+        ["0*inf", "odd-power-crossing", "even-power-negative", "unnormalised-function", "missing-bound", "mode=ops", "mode=evaluate-bound", "mode=integer-bound", "mode=content-factor", "exponent>=4", "content-zero-function", "infinite-box-side", "sub-epsilon-coefficients", "affine-range-oracle", "affine-range-unbounded", "integer-bound-huge-endpoint", "id=u64::MAX"].iter().map(|s| s.to_string()).collect()
     }
     fn cases(&self, tier: Tier) -> usize {
         match tier {
@@ -317,7 +317,18 @@ impl Property for C16 {
                 ctx.label("mode=evaluate-bound");
                 let regime = if t.p(100) { Regime::General } else { Regime::Dyadic };
                 let nv = 1 + t.choice(4);
-                let ids: Vec<u64> = (0..nv as u64).map(|i| i * 3 + 1).collect();
+                let ids: Vec<u64> = if t.p(70) {
+                    // ids from the whole range (0, 2^53 + 1, u64::MAX - 1, u64::MAX ...)
+                    let mut pool = ID_POOL.to_vec();
+                    t.shuffle(&mut pool);
+                    pool.truncate(nv);
+                    if pool.contains(&u64::MAX) {
+                        ctx.label("id=u64::MAX");
+                    }
+                    pool
+                } else {
+                    (0..nv as u64).map(|i| i * 3 + 1).collect()
+                };
                 let cfg = FuncCfg { regime, allow_unset: true, max_terms: 6, ..FuncCfg::default() };
                 let tiny = regime == Regime::General && t.p(40);
                 let mut f = gen_function(t, &ids, &cfg, ctx);
@@ -401,7 +412,18 @@ impl Property for C16 {
                         ctx.label("affine-range-unbounded");
                     }
                     // relative to the magnitudes involved, plus an absolute floor for products that underflow
-                    let slack = q(1e-9) * mag + q(1e-290);
+                    // (rounding happens on the raw, un-merged terms: 6 - 6 + 1e-16 may come out as 0)
+                    let mut rawmag = Q::zero();
+                    for (ids_, c) in raw_terms(&f) {
+                        let mut tq = q(c).abs();
+                        for id in &ids_ {
+                            let (lo, hi) = ivs[id];
+                            let e = [lo, hi].iter().filter(|x| x.is_finite()).fold(0.0f64, |a, x| a.max(x.abs()));
+                            tq *= q(e.max(1.0));
+                        }
+                        rawmag += tq;
+                    }
+                    let slack = q(1e-9) * (mag + rawmag) + q(1e-290);
                     let hi_ok = if sup_inf { b.upper() == f64::INFINITY } else { b.upper() == f64::INFINITY || q(b.upper()) + slack.clone() >= sup };
                     let lo_ok = if inf_inf { b.lower() == f64::NEG_INFINITY } else { b.lower() == f64::NEG_INFINITY || q(b.lower()) - slack.clone() <= inf };
                     if !hi_ok || !lo_ok {
